@@ -16,14 +16,16 @@ def shapes(n, kind):
                 pad = lambda t: ",".join(map(str, list(t) + [0] * (3 - n)))
                 lab = "n%d_a%s_v%s_r%s" % (n, "".join(map(str, acc)), "".join(map(str, val)), "".join(map(str, rd)))
                 if kind == 2:
-                    # F15 shapes: in arrival order (round, then endpoint index) a valid configuration precedes a failure.
-                    # They carry the label prefix f15_ so that the known-finding entry matches exactly these shapes.
-                    order = sorted((rd[i], i) for i in range(n) if acc[i])
-                    seen_valid = False; f15 = False
-                    for _, i in order:
-                        if val[i]: seen_valid = True
-                        elif seen_valid: f15 = True
+                    # F15 shapes, by arrival order (round, then endpoint index); the label prefix lets a known-finding
+                    # entry match exactly these shapes:
+                    #   f15_  : a valid configuration precedes a failure (the later failure fails the user handle)
+                    #   f15b_ : failure, valid configuration, then another valid configuration (the handle keeps state
+                    #           ERROR with cleared error fields; the next configuration reply is dropped)
+                    order = [val[i] for _, i in sorted((rd[i], i) for i in range(n) if acc[i])]
+                    f15 = any(order[j] and not order[k] for j in range(len(order)) for k in range(j + 1, len(order)))
+                    f15b = any((not order[j]) and order[k] and order[l] for j in range(len(order)) for k in range(j + 1, len(order)) for l in range(k + 1, len(order)))
                     if f15: lab = "f15_" + lab
+                    elif f15b: lab = "f15b_" + lab
                 d = ["NSUB=%d" % n, "KIND=%d" % kind, "ACCEPT={%s}" % pad(acc), "VALID={%s}" % pad(val), "ROUND={%s}" % pad(rd)]
                 if not any(acc):
                     d.append("SHAPE_ALL_REFUSE=1")
